@@ -412,10 +412,49 @@ def directed_programs():
     return out
 
 
+def sourceless_modes(ctx, only=None):
+    """vf/scripts/c15_optmode.py: the same module once with its source file available and once compiled from a string (no
+    source for inspect: byte-code-only deployment, `python -c`, exec), run in child interpreters (default, -O, -OO). An
+    explicitly enabled contract does the same in every mode - same outcome type, same bodies run - also where the violation
+    message cannot show the condition text; enabled=False is absent everywhere; the default follows __debug__. For the copy with
+    sources the outcomes are spelled out."""
+    from vf import modes
+
+    names = ("pre_lambda", "pre_def", "post_lambda", "post_error_class", "Inv", "pre_default", "pre_disabled")
+    runs = {modes.mode_name(f): modes.run_script("c15_optmode.py", f) for f in modes.MODES}
+    base = runs["default"]
+    for mode, got in runs.items():
+        if only is not None and only != mode:
+            continue
+        for prefix in ("sourced", "sourceless"):
+            for name in names:
+                for arg in (1, -1):
+                    label = "%s/%s(%d)" % (prefix, name, arg)
+                    body = [name] if (arg == 1 or name.startswith(("post", "Inv"))) else []
+                    ok = [["ret", "Inv" if name == "Inv" else arg], [name]]
+                    if name == "pre_disabled" or (name == "pre_default" and mode != "default") or arg == 1:
+                        want = ok
+                    elif prefix == "sourced" or name == "pre_def":
+                        want = [["ValueError" if name == "post_error_class" else "ViolationError"], body]
+                    else:
+                        want = base[label]  # no source: whatever the default mode does (the message cannot quote the condition)
+                        if want[0][0] == "ret":
+                            want = None
+                    ctx.case(["sourceless-mode", mode, label], mode != "default" and prefix == "sourceless",
+                             sample={"directed": "interpreter mode %s: %s" % (mode, label), "outcome": got.get(label)})
+                    ctx.count("directed:sourceless-modes")
+                    if want is None or got.get(label) != want:
+                        ctx.fail("sourceless-mode|%s|%s|%s" % (mode, prefix, name), {"sourceless_mode": mode},
+                                 "python %s vf/scripts/c15_optmode.py, %s: expected [outcome, bodies run] = %r, got %r" % (
+                                     mode if mode != "default" else "", label, want, got.get(label)))
+
+
 def run(ctx, tier, seed, shard, nshards):
     from vf.progmodel import harness as H
     from vf.progmodel import ref as REF
 
+    if shard == 0:
+        sourceless_modes(ctx)
     all_cells = list(cells())
     programs = gen_programs(seed, 40 if tier == "quick" else 400)
     results = {}
@@ -511,6 +550,11 @@ def run(ctx, tier, seed, shard, nshards):
 
 
 def replay(ctx, case):
+    if case.get("sourceless_mode"):
+        before = ctx.evaluations
+        sourceless_modes(ctx, only=case["sourceless_mode"])
+        ctx.evaluations = before + 1
+        return
     if "cell" in case:
         d, e, k = case["cell"][:3]
         bs = case["cell"][3] if len(case["cell"]) > 3 else "bare"
